@@ -163,13 +163,17 @@ def rule_windows(ctx, chk, L, rid):
                                 # group by the innermost push site; label with the arm that reaches it at the
                                 # shallowest inline depth (the arm whose own code contains the window)
                                 inner = e[4][-1]
-                                depth = len(e[4])
                                 cur = found.get(inner)
-                                if cur is None or depth < cur[3]:
-                                    found[inner] = (e, r, k, depth, arm)
+                                if cur is None:
+                                    found[inner] = (e, r, k, set([arm]))
+                                else:
+                                    cur[3].add(arm)
         regroup = {}
-        for inner, (e, r, k, depth, arm) in found.items():
-            key = "%s%s" % (b.defp, (":" + arm) if arm else "")
+        for inner, (e, r, k, arms) in found.items():
+            # a window is identified by the entry point and the set of update kinds that reach it (not by where the
+            # re-insertion code happens to live): moving the amend into a helper keeps the key
+            label = "+".join(sorted(a for a in arms if a))
+            key = "%s%s" % (b.defp, (":" + label) if label else "")
             regroup.setdefault(key, (e, r, k))
         found = regroup
         for key, (e, r, k) in found.items():
